@@ -71,7 +71,7 @@ SEEDS_THOROUGH = ["0", "1", "2", "12345", "987654321"]
 DIALECTS6 = ["", "bigquery", "duckdb", "mysql", "postgres", "snowflake"]
 TARGETS4 = ["spark", "tsql", "oracle", "clickhouse"]
 REUSE_DIALECTS_QUICK = ["", "bigquery", "presto", "duckdb", "mysql", "snowflake", "athena", "tsql", "postgres", "spark", "hive", "oracle",
-                        "clickhouse", "trino", "redshift", "sqlite"]
+                        "clickhouse", "trino", "redshift", "sqlite", "risingwave"]
 REPEAT = 400
 
 SCHEMA = {
@@ -80,6 +80,7 @@ SCHEMA = {
     "v": {"a": "int", "b": "int", "c": "int", "id": "int", "x": "int"},
 }
 
+SCHEMA_STRUCT = {"events": {"id": "INT", "payload": "STRUCT<user_id INT, tags STRUCT<a INT, b TEXT>>"}}
 SCHEMA_NESTED = {
     "db1": {"t": {"a": "int", "b": "int"}, "w": {"a": "int"}},
     "db2": {"t": {"a": "varchar", "c": "int"}},
@@ -480,6 +481,28 @@ def worker_reuse(dname, out_path):
         count("MappingSchema." + pname)
         if f_out != r_out:
             V("reuse-schema", "nested", "schema-answer:" + pname, f"long-lived nested MappingSchema.{pname} (probe {n}): {str(r_out)[:150]} fresh: {str(f_out)[:150]}", {"n": n, "sql": pname})
+    # --- struct columns: star expansion over a struct reads the field definitions held by the schema's type objects; a call
+    # that rewrites its own tree in place (qualify quotes identifiers by default) must not reach them
+    if dname in ("risingwave", "bigquery", "duckdb", "postgres", ""):
+        s_long = MappingSchema(SCHEMA_STRUCT, dialect=dname or None)
+        mk = lambda: MappingSchema(SCHEMA_STRUCT, dialect=dname or None)
+        struct_sqls = ["SELECT (payload).* FROM events", "SELECT ((payload).tags).* FROM events", "SELECT payload.* FROM events", "SELECT payload.tags.* FROM events",
+                       "SELECT id, payload FROM events", "SELECT * FROM events"]
+        struct_calls = [
+            ("qualify", lambda sc, q: qualify(sqlglot.parse_one(q, read=dname or None), schema=sc, dialect=dname or None).sql(dialect=dname or None)),
+            ("qualify-unquoted", lambda sc, q: qualify(sqlglot.parse_one(q, read=dname or None), schema=sc, dialect=dname or None, quote_identifiers=False).sql(dialect=dname or None)),
+            ("optimize", lambda sc, q: optimize(q, schema=sc, dialect=dname or None).sql(dialect=dname or None)),
+            ("get_column_type", lambda sc, q: sc.get_column_type("events", "payload").sql(dialect=dname or None)),
+            ("annotate", lambda sc, q: " ".join(x.type.sql() if x.type else "-" for x in annotate_types(sqlglot.parse_one(q, read=dname or None), schema=sc, dialect=dname or None).selects)),
+        ]
+        for rnd in range(2):
+            for n, q in enumerate(struct_sqls):
+                for func, call in struct_calls:
+                    f_out = captured(lambda: call(mk(), q))
+                    r_out = captured(lambda: call(s_long, q))
+                    count(func + "(struct schema)")
+                    if f_out != r_out:
+                        V("reuse-schema", "struct", func, f"long-lived MappingSchema with struct columns, {func}: {str(r_out)[:150]} fresh: {str(f_out)[:150]}", {"n": n, "sql": q})
     json.dump({"violations": viol, "counts": counts, "inputs": len(inputs)}, open(out_path, "w"))
 
 
